@@ -1,11 +1,13 @@
 """C45 Shutdown releases every connection and stops accepting work.
 
 Layer E (engine E): breadth-first search over event histories of a real Cluster + Session on the
-virtual server (2 hosts, protocol v4, every executor task / scheduler entry / timer / answer an
+virtual server (2 or 3 hosts, protocol v4, every executor task / scheduler entry / timer / answer an
 explorer event); `Cluster.shutdown()` and `Session.shutdown()` are injected in EVERY reachable
 state, the exploration continues behind them, and every state behind a shutdown is judged.
 Layer S (engine S): the shutdown call races one executor worker that is inside a connecting task
-(and, for connect, the client thread inside Cluster.connect()), line-granular, preemption bounded.
+(and, for connect, the client thread inside Cluster.connect()), line-granular, preemption bounded;
+the node fails the attempt that is under way in every way it can, and the session keyspace changes
+while a pool connection is being opened.
 """
 import gc
 
@@ -19,23 +21,33 @@ META = {
     'technique': 'explicit-state BFS over event histories of the real Cluster/Session with a shutdown injected in every reachable state '
                  '(canonical-state dedup), plus preemption-bounded line-granular schedule exploration of the shutdown call racing '
                  'executor tasks that are opening connections and racing Cluster.connect()',
-    'text': 'Real Cluster + Session over the virtual server (2 nodes, +1 joining; protocol v4; every executor task, scheduler entry, '
-            'connection timer and held answer is an explorer event).  Layer E: five scenarios (requests in flight / timing out; pool '
+    'text': 'Real Cluster + Session over the virtual server (2 nodes, +1 joining; or 3 nodes; protocol v4; every executor task, scheduler '
+            'entry, connection timer and held answer is an explorer event).  Layer E: scenarios (requests in flight / timing out, also on a protocol-v2 legacy pool growing on demand; pool '
             'connection replacement after the orphaned-stream threshold, old connection trashed; node down -> reconnection attempts -> '
-            'node up -> pool re-creation; control-connection node down -> control reconnect; node joining / status events), all histories '
+            'node up -> pool re-creation; control-connection node down -> control reconnect; the same with three nodes where the next '
+            'node of the plan fails every NEW connection -- closes it at the first or third request, never answers (thorough: fails '
+            'STARTUP) -- so that the reconnect has to go on to the third; node joining / status events), all histories '
             'to depth 6-9 (thorough 8-11, either of the first two queued tasks first); Cluster.shutdown() and Session.shutdown() are '
             'injected in EVERY reachable state and exploration continues behind them.  Layer S: client thread calling shutdown vs one '
             '(thorough: also two) executor worker thread(s) running a queued HostConnection._replace / _HostReconnectionHandler.run / '
             'run_add_or_renew_pool / ControlConnection._reconnect plus a reactor thread delivering the handshake and query answers '
             '(connection accepted, or first attempt refused), every virtual primitive and every source line of the connect / reconnect '
-            '/ replace / shutdown functions a scheduling point, all schedules with <= 1 preemption; and Cluster.connect() in one client '
+            '/ replace / shutdown functions a scheduling point, all schedules with <= 1 preemption; the control reconnect over a plan of '
+            'two nodes (3 nodes, one dead) whose first attempt fails in each of six ways (refused; closed by the node during the handshake / '
+            'after it; STARTUP or a later query answered with an error; never answered = timeout), second node serving (switches at '
+            'blocking points) or nobody accepting any more (<= 1 preemption); pool creation and pool connection replacement while the '
+            'session keyspace changes (the answer to an application USE arrives at a moment the schedule chooses, so the new connection '
+            'has to be moved to the new keyspace with the session / pool lock released; switches at blocking points, thorough + 1 '
+            'preemption capped); and Cluster.connect() in one client '
             'thread vs Cluster.shutdown() in another from an unconnected cluster (all schedules without preemption, i.e. switches at '
             'blocking points; thorough: + 1 preemption under a per-subtree cap).  Oracle, evaluated behind every shutdown after the '
             'default drain (answers delivered, queued tasks run, scheduler entries fired or dropped as _Scheduler would): every '
             'connection ever opened (control, pool, replacement, reconnection probe) is closed -- for Session.shutdown() every pool '
             'connection of the session, and everything after the following Cluster.shutdown(); no activity that started after the call '
-            'returned opened a connection; execute_async() after the shutdown raises or fails (not sent, not pending); '
-            'Cluster.connect() after Cluster.shutdown() raises; the shutdown call itself does not raise or deadlock.',
+            'returned made a connection attempt; no activity made a further connection attempt (next node of a plan, retry; also one '
+            'that is refused or closed again at once) after an attempt of it had ended when the shutdown had already done all its work '
+            '(returned, or only waiting in executor.shutdown(wait=True)); execute_async() after the shutdown raises or fails (not sent, '
+            'not pending); Cluster.connect() after Cluster.shutdown() raises; the shutdown call itself does not raise or deadlock.',
     'note': 'Trusted: the virtual world (vt/world: clock, executor = FIFO queue whose shutdown(wait=True) runs what is queued like '
             'ThreadPoolExecutor, scheduler with the drop-after-shutdown rule of cluster._Scheduler, VConnection implementing only what '
             'every shipped reactor implements).  Layer E handlers are atomic; preemption inside them is layer S at source-line '
@@ -443,9 +455,22 @@ def run(ctx):
     ctx.cov['rule'] = ('E: state = event history replayed on a fresh real Cluster+Session; every state behind a shutdown event is drained by the '
                        'default continuation and judged; non-trivial = distinct (scenario, history) at which a shutdown was injected.  '
                        'S: one execution per schedule within the preemption bound, judged after the threads ended; non-trivial = execution '
-                       'with at least one non-default scheduling choice.  outcomes = (layer, kind, connections still open, ...), probe results.')
+                       'with at least one non-default scheduling choice.  outcomes = (layer, kind, connections still open, ...), probe results.  '
+                       'non_vacuity counts executions / injection points by what was going on: ..._attempt_under_way_at_shutdown_failing_after_it = '
+                       'a Connection.factory() call begun before the shutdown had done its work ended with an exception after that; '
+                       '..._shutdown_inside_that_keyspace_switch = the node received the USE for the changed keyspace on a connection being '
+                       'opened before the shutdown was called and its answer was read after the call had begun.')
     ctx.assume('"after shutdown" is judged from the moment the shutdown call has returned; what the call itself runs while draining the '
-               'executor (ThreadPoolExecutor.shutdown(wait=True) lets queued tasks run) is part of the call')
+               'executor (ThreadPoolExecutor.shutdown(wait=True) lets queued tasks run) is part of the call: such a task may still make '
+               'the ONE connection attempt it is about (it must close it).  Not a second one: once an attempt of an activity has ended '
+               'while Cluster.shutdown() had set every flag, shut down scheduler, control connection and sessions and was only waiting '
+               'for the executor (or had returned), a further attempt by that activity is a new attempt after the shutdown')
+    ctx.assume('an attempt of an activity ends when Connection.factory() returns or raises in its thread, or when that thread calls close() '
+               'on a connection; a shutdown that completes between that moment and the start of the next attempt is not held against '
+               'the driver (check-then-act window without a lock)')
+    ctx.assume('a node fails a new connection by refusing it, closing it (EOF -> close(), as the shipped reactors do), answering with an '
+               'ERROR frame, or not answering (the connect timeout passes only when no thread can run); protocol-version negotiation '
+               '(downgrade and retry inside _try_connect) is not enumerated: the cluster is created with an explicit version')
     ctx.assume('Session.shutdown(): the connections the session opened are its pools\' connections (creation and replacement); the '
                'control connection and host reconnection probes belong to the cluster and are judged after the following Cluster.shutdown()')
     ctx.assume('event handlers are atomic in layer E (single-threaded histories); preemption inside them is layer S, at source-line granularity')
